@@ -50,6 +50,8 @@ def run_mvdr(case, R):
     try:
         w = get_mvdr_vector(a, Pn)
     except Exception as e:
+        if not instr.is_library_exception(e):
+            raise
         R.fail('C11.mvdr', f'mvdr/raised/{"stack" if lead else "bins"}', f'get_mvdr_vector raised {type(e).__name__} for atf {a.shape}, psd {Pn.shape}: {str(e)[:100]}', **info)
         return
     if w.shape != a.shape or not np.isfinite(w).all():
@@ -96,6 +98,8 @@ def run_lcmv(case, R):
     try:
         w = get_lcmv_vector(A, list(r) if rng.uniform() < 0.5 else r, Pn)
     except Exception as e:
+        if not instr.is_library_exception(e):
+            raise
         R.fail('C11.lcmv', 'lcmv/raised', f'get_lcmv_vector raised {type(e).__name__}: {str(e)[:100]}', **info)
         return
     if w.shape != (F, D) or not np.isfinite(w).all():
@@ -129,6 +133,8 @@ def run_souden(case, R):
     try:
         w = get_mvdr_vector_souden(Px, Pn, ref_channel=ref)
     except Exception as e:
+        if not instr.is_library_exception(e):
+            raise
         R.fail('C11.souden', 'souden/raised', f'{type(e).__name__}: {str(e)[:100]}', **info)
         return
     tol = 64 * np.finfo(float).eps * case['cond'] * 10 + 1e-12
@@ -159,6 +165,8 @@ def run_wmwf(case, R):
     try:
         w = get_wmwf_vector(Px, Pn, reference_channel=ref, distortion_weight=mu)
     except Exception as e:
+        if not instr.is_library_exception(e):
+            raise
         R.fail('C11.wmwf', 'wmwf/raised', f'{type(e).__name__}: {str(e)[:100]}', **info)
         return
     tol = 64 * np.finfo(float).eps * case['cond'] * 100 + 1e-11
@@ -199,6 +207,8 @@ def run_ref(case, R):
             cand = [get_wmwf_vector(Px, Pn, reference_channel=r, distortion_weight=mu) for r in range(D)]
             chosen = None
     except Exception as e:
+        if not instr.is_library_exception(e):
+            raise
         R.fail('C11.refchannel', f'ref/raised/{which}', f'{type(e).__name__}: {str(e)[:100]}', **info)
         return
     snr = np.array([quad(c, Px).sum() / max(quad(c, Pn).sum(), np.finfo(float).tiny) for c in cand])
@@ -216,6 +226,8 @@ def run_ref(case, R):
             dvs = float(np.abs(w_s - w).max() / np.abs(w).max())
             R.check('C11.refchannel', dvs <= 1e-9, 'ref/wmwf/joint-scale-changes-choice', f'WMWF with automatic reference changes by {dvs:.3e} under joint scaling of both PSDs by {cs:.1e}', scale=cs, **info)
         except Exception as e:
+            if not instr.is_library_exception(e):
+                raise
             R.fail('C11.refchannel', 'ref/raised/wmwf-scaled', f'{type(e).__name__}: {str(e)[:100]}', **info)
     if chosen is not None:
         R.check('C11.refchannel', int(chosen) == best, f'ref/{which}/not-argmax', f'automatic reference channel {chosen} does not maximise the output SNR criterion (best {best})', snr=snr, **info)
